@@ -1,1 +1,1 @@
-import WfModel.Model.RangeSet
+import WfModel.Basic
